@@ -5,15 +5,15 @@ func spaces(thorough bool) []*space {
 	qk := [3][]string{1: {"Bf", "Bd", "$gB"}, 2: {"Cf", "$gC"}}
 	if !thorough {
 		return []*space{
-			{Name: "full3", Levels: 3, TM: "!#~", F: 1, Full: true, Kinds: qk},
-			{Name: "ops2", Levels: 2, NT: "EPDX", TM: "!#~", B: 2, G: 4, F: 1, Kinds: qk},
+			{Name: "full3", Levels: 3, TM: "!#~", F: 1, Full: true, Kinds: qk, Block: true},
+			{Name: "ops2", Levels: 2, NT: "EPDX", TM: "!#~", B: 2, G: 2, F: 1, Kinds: qk},
 			{Name: "ops3", Levels: 3, NT: "E", TM: "!#", B: 2, G: 2, F: 1, Kinds: qk},
 		}
 	}
 	tk := [3][]string{1: {"Bf", "Bd", "B7", "B5", "Af", "$gB", "$sB"}, 2: {"Cf", "Cd", "Af", "Bf", "$gC", "$gA"}}
 	return []*space{
 		{Name: "full3", Levels: 3, TM: "!#~", F: 2, Full: true, Kinds: tk},
-		{Name: "ops2", Levels: 2, NT: "EPDXF", TM: "!#~", B: 2, G: 4, F: 2, Kinds: tk},
+		{Name: "ops2", Levels: 2, NT: "EPDXF", TM: "!#~", B: 2, G: 2, F: 1, Kinds: tk},
 		{Name: "ops3", Levels: 3, NT: "EP", TM: "!#", B: 2, G: 3, F: 1, Kinds: qk},
 	}
 }
